@@ -8,6 +8,7 @@ from the same point for every history and is shared by the requests inside one h
 import hashlib
 import json
 import os
+import re
 import sys
 import warnings
 
@@ -28,6 +29,8 @@ def generate(fa, algos, req, ctxs):
         kw.update(enable_alt=True, default_constant_type=req.get("default_constant_type", "FloatType"))
     elif req.get("default_constant_type"):
         kw.update(default_constant_type=req["default_constant_type"])
+    if req.get("parameters"):
+        kw.update(parameters=dict(req["parameters"]))
     if req.get("same_ctx_key"):
         ctx = ctxs.setdefault(req["same_ctx_key"], fa.Context(**kw))
     else:
@@ -47,7 +50,8 @@ def run_history(fa, algos, alphabet, hist):
                 text = generate(fa, algos, req, ctxs)
             kind = "text"
         except Exception as ex:  # noqa
-            text = "%s: %s" % (type(ex).__name__, ex)
+            # an exception message may quote an object address: not part of the answer
+            text = "%s: %s" % (type(ex).__name__, re.sub(r"0x[0-9a-fA-F]+", "0x", str(ex)))
             kind = "raise"
         out.append([idx, kind, hashlib.sha256(text.encode()).hexdigest(), len(text)])
     return out
